@@ -51,6 +51,8 @@ for (n, prop, patch), ks in zip(items, res):
     out.append({'id': n, 'property': prop, 'kind': 'break', 'patch': patch, 'expect': ks})
 for d in sorted(glob.glob(V + '/variants/refactor/*/')):
     n = os.path.basename(d.rstrip('/'))
+    if os.path.exists(d + 'LIMIT.md'):
+        print('known limit (left out):', n); continue
     out.append({'id': 'refactor-' + n, 'property': '*', 'kind': 'refactor', 'patch': 'variants/refactor/%s/patch.diff' % n, 'expect': []})
 json.dump(out, open(V + '/variants/index.json', 'w'), indent=1, ensure_ascii=False)
 print('wrote %d variants (%d break, %d refactor)' % (len(out), sum(1 for x in out if x['kind'] == 'break'), sum(1 for x in out if x['kind'] == 'refactor')))
